@@ -10,8 +10,8 @@
    histories whose typed names satisfy `tn_wf` (authority non-empty, no '/' in namespace and name, name
    segments [A-Za-z][0-9A-Za-z_]* — outside it Go's TypedName.Parts panics with InvalidCharactersInName). *)
 From Coq Require Import NArith Bool List.
-From PcoreV Require Import Model.Base Model.Loader Model.LoaderSpec Proofs.LoaderNames Proofs.LoaderProofs
-  Proofs.LoaderCorollaries.
+From PcoreV Require Import Model.Base Model.Loader Model.LoaderSpec Model.LoaderAdd Proofs.LoaderNames Proofs.LoaderProofs
+  Proofs.LoaderCorollaries Proofs.LoaderAddProofs Proofs.LoaderAddCorollaries.
 Import ListNotations.
 
 (* Refinement: for EVERY history of construct / define / load / load-entry / get-entry / has-entry / discover
@@ -130,6 +130,71 @@ Theorem C12_relative_total :
 Proof. exact relative_to_total. Qed.
 Print Assumptions C12_relative_total.
 
+(* ---------------------------------------------------------------------------------------------- *)
+(* px.AddTypes with object types and type sets (Model/LoaderAdd.v): the calls px.AddTypes, resolveTypes,
+   resolveTypeSet, typeSet.Resolve and objectType.Constructor make on the loaders — SetEntry, LoadEntry followed by
+   `le == nil || le.Value() == nil`, NewTypeSetLoader — run on the model (`xstep`) and on the specification
+   (`spec_xstep`).  A history is a list of `xop`: an operation of Model/Loader.v or px.AddTypes.  Domain `xop_wf`:
+   well-formed names and type sets, and the calls refer to L or to type-set loaders the same px.AddTypes created
+   (checked on every correspondence case). *)
+
+(* Refinement for EVERY history with px.AddTypes: every result of the model, a cached miss projected to a miss,
+   is the result of the write-once specification, where px.AddTypes binds type/<name> of every type that is not a
+   type set, constructor/<name> (and allocator/<name> unless the type's loader resolves one) of an object type,
+   the members of a type set that do not resolve yet through the loader, and at last the set. *)
+Theorem C12_addtypes_refines :
+  forall cfg xs, cfg_wf cfg = true -> forallb (xop_wf cfg) xs = true ->
+    map xproject (xouts cfg xs) = spec_xouts cfg xs.
+Proof. exact xloader_refines. Qed.
+Print Assumptions C12_addtypes_refines.
+
+Theorem C12_addtypes_state_refines :
+  forall cfg xs, cfg_wf cfg = true -> forallb (xop_wf cfg) xs = true ->
+    abs (fst (xrun cfg xs)) = fst (spec_xrun cfg xs).
+Proof. exact xloader_state_refines. Qed.
+Print Assumptions C12_addtypes_state_refines.
+
+(* a history without px.AddTypes is a history of Model/Loader.v: the theorems above are the special case *)
+Theorem C12_addtypes_embeds :
+  forall cfg ops, xrun cfg (map XOp ops) = (fst (run cfg ops), map XR (outs cfg ops)).
+Proof. exact xrun_embed. Qed.
+Print Assumptions C12_addtypes_embeds.
+
+(* px.AddTypes ends normally or with AttemptToRedefine / AttemptToRedefineType: no runtime fault, never stuck, no
+   other error; the other operations as in C12_no_fault *)
+Theorem C12_addtypes_no_fault :
+  forall cfg xs, cfg_wf cfg = true -> forallb (xop_wf cfg) xs = true ->
+    Forall2 (fun x r => xout_ok x r = true) xs (xouts cfg xs).
+Proof. exact xresults_classified. Qed.
+Print Assumptions C12_addtypes_no_fault.
+
+(* write-once across px.AddTypes: a binding a loader owns stays what it is (a member that is bound already is
+   not bound again, an equal type set is a no-op, a different one is rejected) *)
+Theorem C12_addtypes_write_once :
+  forall cfg xs xs' l k v, cfg_wf cfg = true -> forallb (xop_wf cfg) (xs ++ xs') = true ->
+    assoc k (own_binds (abs (fst (xrun cfg xs))) l) = Some v ->
+    assoc k (own_binds (abs (fst (xrun cfg (xs ++ xs')))) l) = Some v.
+Proof. exact xwrite_once. Qed.
+Print Assumptions C12_addtypes_write_once.
+
+(* misses are not sticky for px.AddTypes (the seeded change C12-m1 falsifies this): after ANY history, if the
+   lookup of n through loader l (not a type-set loader) fails, px.AddTypes through l then ends normally, and the
+   calls it makes contain `le := l.LoadEntry(c, n); if le == nil || le.Value() == nil { l.SetEntry(n, v); ... }`
+   with no earlier call binding n — for a type set: n is the qualified name of a member and v the member — then n
+   resolves to v. *)
+Theorem C12_addtypes_miss_not_sticky :
+  forall cfg xs l ts pre n v body post,
+    cfg_wf cfg = true -> forallb (xop_wf cfg) xs = true -> xop_wf cfg (XAddTypes l ts) = true ->
+    op_wf (OLoad l n) = true -> tn_auth (norm n) = cfg_auth cfg ->
+    compile (cfg_auth cfg) ts = pre ++ IUnless HL n (ASet HL n v :: body) :: post ->
+    ~ In (map_key (norm n)) (flat_map instr_keys pre) ->
+    (exists nd, nth_error (fst (xrun cfg xs)) l = Some nd /\ is_tset (nkind nd) = false) ->
+    xresult_after cfg xs (XOp (OLoad l n)) = XR (RFound None) ->
+    xresult_after cfg (xs ++ [XOp (OLoad l n)]) (XAddTypes l ts) = XA AOk ->
+    xresult_after cfg (xs ++ [XOp (OLoad l n); XAddTypes l ts]) (XOp (OLoad l n)) = XR (RFound (Some v)).
+Proof. exact addtypes_miss_not_sticky. Qed.
+Print Assumptions C12_addtypes_miss_not_sticky.
+
 (* Non-vacuity: a concrete well-formed configuration and history over a chain of depth 3 and a type-set
    loader below the static loader — a miss, a definition after the miss, equal and different
    redefinitions, shadowing by an ancestor, relative names, discovery. *)
@@ -200,4 +265,56 @@ Proof.
         + tauto.
         + inversion A1 as [l2 nd2 p2 E2 P2|l2 nd2 p2 q2 E2 P2 A2]; subst; vm_compute in E2; injection E2 as <-; vm_compute in P2; discriminate. }
     destruct Hq' as [->|[->| ->]]; vm_compute in E; injection E as <-; vm_compute in K; discriminate.
+Qed.
+
+(* Non-vacuity for px.AddTypes: the type set Foo {Zed, Bus => Object} with a nested set Sub {X => Object}, added
+   after lookups of two members failed; the calls it compiles to; the results. *)
+Definition tzed := mkV 200 (Some 200%N) true.
+Definition tbus := mkV 201 (Some 201%N) true.
+Definition abus := mkV 202 (Some 202%N) false.
+Definition cbus := mkV 203 (Some 203%N) false.
+Definition tsub := mkV 204 (Some 204%N) true.
+Definition tsx := mkV 205 (Some 205%N) true.
+Definition asx := mkV 206 (Some 206%N) false.
+Definition csx := mkV 207 (Some 207%N) false.
+Definition tfoo := mkV 208 (Some 208%N) true.
+Definition s_foo : str := [70;111;111]%N.
+Definition s_foo_zed : str := [70;111;111;58;58;90;101;100]%N.
+Definition s_foo_bus : str := [70;111;111;58;58;66;117;115]%N.
+Definition s_foo_sub : str := [70;111;111;58;58;83;117;98]%N.
+Definition s_foo_sub_x : str := [70;111;111;58;58;83;117;98;58;58;88]%N.
+Definition ex_set : mtype :=
+  MSet s_foo tfoo
+    [([90;101;100]%N, MPlain s_foo_zed tzed);
+     ([83;117;98]%N, MSet s_foo_sub tsub [([88]%N, MObject s_foo_sub_x tsx (Some asx) (Some csx))]);
+     ([66;117;115]%N, MObject s_foo_bus tbus (Some abus) (Some cbus))].
+Definition n_bus := mkTn ex_auth ns_type s_foo_bus.
+Definition n_sx := mkTn ex_auth ns_type s_foo_sub_x.
+Definition ex_xs : list xop :=
+  [XOp ONewDep; XOp (ONewParented 1); XOp (ONewParented 2); XOp (OLoad 3 n_sx); XOp (OLoad 2 n_bus)].
+
+Example C12_addtypes_nonvacuous :
+  compile ex_auth [ex_set] =
+    [INode HL (mkTs ex_auth s_foo [([90;101;100]%N, tzed); ([83;117;98]%N, tsub); ([66;117;115]%N, tbus)]);
+     INode (HH 0) (mkTs ex_auth s_foo_sub [([88]%N, tsx)]);
+     IUnless HL (mkTn ex_auth ns_type s_foo_zed) [ASet HL (mkTn ex_auth ns_type s_foo_zed) tzed];
+     IUnless HL n_sx [ASet HL n_sx tsx; AUnlessSet (HH 1) (mkTn ex_auth ns_alloc s_foo_sub_x) asx;
+                      ASet HL (mkTn ex_auth ns_ctor s_foo_sub_x) csx];
+     IUnless HL (mkTn ex_auth ns_type s_foo_sub) [ASet HL (mkTn ex_auth ns_type s_foo_sub) tsub];
+     IUnless HL n_bus [ASet HL n_bus tbus; AUnlessSet (HH 0) (mkTn ex_auth ns_alloc s_foo_bus) abus;
+                       ASet HL (mkTn ex_auth ns_ctor s_foo_bus) cbus];
+     IAct (ASet HL (mkTn ex_auth ns_type s_foo) tfoo)] /\
+  forallb (xop_wf ex_cfg) (ex_xs ++ [XAddTypes 2 [ex_set]]) = true /\
+  xouts ex_cfg (ex_xs ++ [XAddTypes 2 [ex_set]; XOp (OLoad 3 n_sx); XOp (OLoad 2 n_bus); XOp (OGetEntry 2 (mkTn ex_auth ns_alloc s_foo_bus));
+                          XAddTypes 3 [ex_set]; XOp (OGetEntry 3 n_bus); XOp (ONewParented 3)]) =
+    [XR (RNew 1); XR (RNew 2); XR (RNew 3); XR (RFound None); XR (RFound None);
+     XA AOk; XR (RFound (Some tsx)); XR (RFound (Some tbus)); XR (REntry (EVal abus));
+     XA AOk; XR (REntry ENone); XR (RNew 8)] /\
+  xresult_after ex_cfg (firstn 4 ex_xs) (XOp (OLoad 2 n_bus)) = XR (RFound None) /\
+  xresult_after ex_cfg ex_xs (XAddTypes 2 [ex_set]) = XA AOk /\
+  ~ In (map_key (norm n_bus)) (flat_map instr_keys (firstn 5 (compile ex_auth [ex_set]))).
+Proof.
+  split; [vm_compute; reflexivity|]. split; [vm_compute; reflexivity|]. split; [vm_compute; reflexivity|].
+  split; [vm_compute; reflexivity|]. split; [vm_compute; reflexivity|].
+  vm_compute. intros H. repeat (destruct H as [H|H]; [discriminate H|]). exact H.
 Qed.
